@@ -85,3 +85,15 @@ Definition ctwin {X} (fn : string) (t : outcome (result X cerr)) (p : outcome X)
   | Panic w => p = Panic w
   | UB u => p = UB u
   end.
+
+(* what C07 demands of a checked outcome, given the plain cast's outcome on the same input and the
+   validity of the elements of the plain view *)
+Definition checked_outcome {V} (plain : outcome (result V perr)) (valid : V -> bool)
+           (o : outcome (result V cerr)) : Prop :=
+  match plain with
+  | Ret (Ok pv) => if valid pv then o = Ret (Ok pv) else o = Ret (Err InvalidBitPattern)
+  | Ret (Err e) => o = Ret (Err (PodCastError e))
+  | Panic w => o = Panic w
+  | UB u => o = UB u
+  end.
+
